@@ -190,6 +190,50 @@ theorem idx?_set_firstNone {l : List (Option Nat)} {j v : Nat} (h : firstNone l 
       have : ¬ o = some v := fun e => hv.1 e.symm
       simp [idx?, this, ih hi hv.2]
 
+theorem idx?_clear_ne {k c : Nat} (l : List (Option Nat)) (h : c ≠ k) :
+    idx? (clear k l) c = idx? l c := by
+  induction l with
+  | nil => rfl
+  | cons o l ih =>
+    by_cases ho : o = some k
+    · subst ho
+      have : ¬ k = c := fun e => h e.symm
+      simp [idx?, ih, this]
+    · simp [idx?, ho, ih]
+
+theorem clear_set_none (k : Nat) (l : List (Option Nat)) (i : Nat) :
+    (clear k l).set i none = clear k (l.set i none) := by
+  induction l generalizing i with
+  | nil => rfl
+  | cons o l ih =>
+    cases i with
+    | zero => simp
+    | succ i => simp [ih]
+
+theorem clear_set_some_ne {k c : Nat} (l : List (Option Nat)) (i : Nat) (h : c ≠ k) :
+    (clear k l).set i (some c) = clear k (l.set i (some c)) := by
+  induction l generalizing i with
+  | nil => rfl
+  | cons o l ih =>
+    cases i with
+    | zero => simp [h]
+    | succ i => simp [ih]
+
+theorem clear_comm (a b : Nat) (l : List (Option Nat)) : clear a (clear b l) = clear b (clear a l) := by
+  induction l with
+  | nil => rfl
+  | cons o l ih =>
+    simp only [clear_cons, ih, List.cons.injEq, and_true]
+    by_cases h1 : o = some a <;> by_cases h2 : o = some b <;> simp [h1, h2]
+
+/-- `clearO c l`: the slot(s) holding the (optional) node `c` emptied -/
+def clearO : Option Nat → List (Option Nat) → List (Option Nat)
+  | none, l => l
+  | some k, l => clear k l
+
+@[simp] theorem clearO_none (l) : clearO none l = l := rfl
+@[simp] theorem clearO_some (k l) : clearO (some k) l = clear k l := rfl
+
 theorem set_set_same {α} (l : List α) (i : Nat) (a b : α) : (l.set i a).set i b = l.set i b := by
   simp
 
